@@ -1295,6 +1295,10 @@ class Symbolic(
     for update in field_updates:
       target = update.target
       while target is not None:
+        if not update.path.is_relative_to(target.sym_path):
+          # The target was detached from this tree by another update of the
+          # same batch (e.g. one of its ancestors was replaced).
+          break
         target_updates = _get_target_updates(target)
         if target._subscribes_field_updates:  # pylint: disable=protected-access
           relative_path = update.path - target.sym_path
